@@ -114,6 +114,31 @@ def mir_calls(fn):
     return out
 
 
+def mir_calls_carrying(fn, rx):
+    """block indices of MIR calls that run a function matching `rx`: direct calls, and calls that are handed a closure
+    of this function whose body (transitively through nested closures) calls one — `xs.iter().try_for_each(|x| f(x))?`
+    runs `f` where `for x in xs { f(x)? }` does.  The MIR call is matched to its HIR node by span."""
+    import re as _re
+    from . import core
+    rxc = _re.compile(rx)
+    out = set()
+    carriers = set()
+    if fn.body is not None:
+        for n in core.walk_fn(fn, into_closures=False):
+            if n.get("k") in ("Call", "MethodCall"):
+                args = list(n.get("args") or [])
+                for a in args:
+                    a0 = core.strip(a)
+                    if a0.get("k") == "Closure" and any(y.get("k") in ("Call", "MethodCall") and rxc.search(core.callee(y) or "") for y in core.walk(a0["body"])):
+                        carriers.add(n.get("sp"))
+    for i, cal, g, t in mir_calls(fn):
+        if cal and rxc.search(cal):
+            out.add(i)
+        elif t.get("sp") in carriers:
+            out.add(i)
+    return out
+
+
 # ---------------------------------------------------------------------------------- CFG utilities
 
 class CFG:
